@@ -334,3 +334,4 @@ CHECKS["C12"]["text"] += (" Present optionals in the BOXED form of eight built-i
                           " condition, through variables of optional type and through `or`.")
 CHECKS["C13"]["text"] += (" Boxed string elements / map values must print like plain ones.")
 CHECKS["C16"]["text"] += (" Unclosed towers (list, parenthesis, call, map, index; 3 .. 40 levels) followed by two values without a separator: a failing parse must not retry every enclosing level.")
+CHECKS["C16"]["text"] += (" Since the repair of `value` in grammar.pest the quick tier takes every 6th / 8th derivation of its two largest grammar layers (k <= 3 at module level + rotating host; k <= 4 expressions in a method); the thorough tier enumerates all of them.")
